@@ -140,6 +140,20 @@ def _typed(base):
 TYPED_EXC = {b.__name__: _typed(b) for b in (TimeoutError, ConnectionError, KeyError, AssertionError, ValueError, OSError)}
 
 
+class _FalsyError(Exception):
+    """An exception instance can be falsy (an aggregate error raised with no members)."""
+
+    def __bool__(self) -> bool:
+        return False
+
+    def __len__(self) -> int:
+        return 0
+
+
+TYPED_EXC["FalsyError"] = _typed(_FalsyError)
+CHAIN_TYPES = {"CircuitOpenError": CircuitOpenError, "AbortRetryError": AbortRetryError, "KeyError": KeyError, "TimeoutError": TimeoutError}
+
+
 def make_script_exc(etype: str | None, idx: int, klass: str, ra: Any, as_obj: bool) -> BaseException:
     """The operation's exception may be of any type (builtin TimeoutError, OSError, ... included)."""
     if not etype:
@@ -169,6 +183,15 @@ class Res:
     as_obj: bool = False
 
 
+class AwaitableRes(Res):
+    """A return value that is itself awaitable (a Future / Task handle): the caller must get this very
+    object back; nobody may await it on the caller's behalf."""
+
+    def __await__(self):
+        yield from ()
+        return ("somebody awaited the result", self.idx)
+
+
 class FalsyRes(Res):
     """A perfectly good return value that happens to be falsy and empty."""
 
@@ -177,6 +200,29 @@ class FalsyRes(Res):
 
     def __len__(self) -> int:
         return 0
+
+
+class FalsyCallable:
+    """A perfectly good callback object whose truth value is False (think: an empty queue-like
+    handler defining __len__). `x or default` and `if x:` tests mistake it for 'not given'."""
+
+    def __init__(self, fn) -> None:
+        self._fn = fn
+
+    def __call__(self, *a, **kw):
+        return self._fn(*a, **kw)
+
+    def __bool__(self) -> bool:
+        return False
+
+    def __len__(self) -> int:
+        return 0
+
+
+def maybe_falsy(placement: dict, name: str, fn):
+    if fn is not None and name in (placement.get("falsy") or ()):
+        return FalsyCallable(fn)
+    return fn
 
 
 class AwaitableObj:
@@ -342,12 +388,23 @@ class Env:
                 r = None  # a legal return value; the result classifier learns its class from the script
             elif e.get("rval") == "falsy":
                 r = FalsyRes(i, klass, e.get("ra"), e.get("as_obj", False))
+            elif e.get("rval") == "awaitable":
+                r = AwaitableRes(i, klass, e.get("ra"), e.get("as_obj", False))
             else:
                 r = Res(i, klass, e.get("ra"), e.get("as_obj", False))
             self.objs[i] = r
             return r
         if kind == "exc":
             x: BaseException = make_script_exc(e.get("etype"), i, e["klass"], e.get("ra"), e.get("as_obj", False))
+            ch = e.get("chain")
+            if ch:
+                # the failure happened while handling (or was raised `from`) another exception
+                inner = CHAIN_TYPES[ch[1]]("inner")
+                if ch[0] == "cause":
+                    x.__cause__ = inner
+                else:
+                    x.__context__ = inner
+            x._orig_cause = x.__cause__  # what the operation itself chained (C04 compares identity)
         elif kind == "copen":
             x = ScriptCircuitOpen(i, e.get("klass", "UNKNOWN"))
         elif kind == "abort":
@@ -399,6 +456,9 @@ class Env:
         if not isinstance(klass, str):
             klass = "UNKNOWN"
         self.trace.append(("classify", idx, klass, type(exc).__name__))
+        if self.faults.get(("classifier", i)) == "ReturnsNone":
+            self.trace.append(("fault", "classifier", i, "ReturnsNone"))
+            return None  # a classifier without a default branch
         self.maybe_fault("classifier", i)
         if isinstance(idx, int):
             self.clock.t += g(self._script_entry(idx).get("cdur", 0))  # classification may take time
@@ -623,6 +683,13 @@ class Env:
         a = first is not None and i >= first
         self.trace.append(("poll", i, a, self.now()))
         self.maybe_fault("abort_if", self.tick("abort_if"))
+        style = self.call.get("abort_style")
+        if style == "int":
+            return 1 if a else 0
+        if style == "obj":
+            return ["stop"] if a else []  # any truthy / falsy value answers the question
+        if style == "none":
+            return "shutdown" if a else None
         return a
 
     def on_attempt_start(self, ctx):
@@ -793,7 +860,21 @@ def _flavour(placement: dict, is_async: bool, what: str) -> str:
     return placement.get(what + "_flavour", "async")
 
 
+def _wrap_all(placement: dict, kw: dict, level: str) -> dict:
+    for k in list(kw):
+        kw[k] = maybe_falsy(placement, f"{level}.{k}", kw[k])
+    return kw
+
+
 def policy_level_callbacks(env: Env, placement: dict, is_async: bool) -> dict:
+    return _wrap_all(placement, _policy_level_callbacks(env, placement, is_async), "policy")
+
+
+def call_level_callbacks(env: Env, placement: dict, is_async: bool) -> dict:
+    return _wrap_all(placement, _call_level_callbacks(env, placement, is_async), "call")
+
+
+def _policy_level_callbacks(env: Env, placement: dict, is_async: bool) -> dict:
     kw: dict = {}
     if placement.get("sleeper", "call") in ("policy", "both"):
         kw["sleeper"] = env.make_sleeper("policy", _flavour(placement, is_async, "sleeper"))
@@ -804,7 +885,7 @@ def policy_level_callbacks(env: Env, placement: dict, is_async: bool) -> dict:
     return kw
 
 
-def call_level_callbacks(env: Env, placement: dict, is_async: bool) -> dict:
+def _call_level_callbacks(env: Env, placement: dict, is_async: bool) -> dict:
     kw: dict = {}
     if placement.get("sleeper", "call") in ("call", "both"):
         kw["sleeper"] = env.make_sleeper("call", _flavour(placement, is_async, "sleeper"))
@@ -989,14 +1070,14 @@ def build_entry(env: Env, e: dict, cfg: dict, placement: dict):
         if opname is not None:  # None: the caller names no operation at all
             kw["operation"] = opname
         if placement.get("metric", True):
-            kw["on_metric"] = env.on_metric
+            kw["on_metric"] = maybe_falsy(placement, "call.on_metric", env.on_metric)
         if placement.get("log", True):
-            kw["on_log"] = env.on_log
+            kw["on_log"] = maybe_falsy(placement, "call.on_log", env.on_log)
         if use_abort():
-            kw["abort_if"] = env.abort_if
+            kw["abort_if"] = maybe_falsy(placement, "call.abort_if", env.abort_if)
         if att_hooks == "call":
-            kw["on_attempt_start"] = env.on_attempt_start
-            kw["on_attempt_end"] = env.on_attempt_end
+            kw["on_attempt_start"] = maybe_falsy(placement, "call.on_attempt_start", env.on_attempt_start)
+            kw["on_attempt_end"] = maybe_falsy(placement, "call.on_attempt_end", env.on_attempt_end)
         return kw
 
     def finish(fn, kw):
